@@ -5,6 +5,21 @@ ROOT = os.path.dirname(os.path.dirname(os.path.abspath(__file__)))
 BASE_OFF = "cd /repo && env -u BUIDL_VERIF_TRACE /venv/bin/python -m pytest -ra -q -p no:cacheprovider --timeout=900 --continue-on-collection-errors"
 
 CLAIMED = {
+ "C01": dict(
+   text="On toy prime-order curves TLC enumerates every secret, nonce, digest and (r, s) pair, checks completeness, low-S and exact soundness (curve arithmetic = discrete-log formulation) and exports the complete sign/verify tables, which are replayed through the unmodified PrivateKey.sign / S256Point.verify running on the same toy group (module constants rebound). On secp256k1 recorded sign calls (boundary and random secrets/digests) are decided by TLC in the scalar model with big-number certificates, RFC 6979 is re-derived by TLC from certified HMAC rows, DER is checked at byte level, and every tuple of the mutation catalogue gets the verdict the equation and range rule define.",
+   design="3/C01",
+   note="Trusted: TLC, Sigs.tla/SigCases.tla, hmac/hashlib for HMAC-SHA256 rows, the library's scalar multiplication for kG/dG on the real curve (validated by C03), discrete-log assumption for tuples with unknown nonce. 2^256 keys/digests are sampled with the quantifier's boundary values; toy groups are exhaustive.",
+   technique="TLA+ ECDSA spec: TLC-exhaustive toy-group tables replayed into rebound code + TLC scalar-model validation of recorded secp256k1 calls"),
+ "C02": dict(
+   text="On toy curves with the tagged hashes rebound to a toy hash family defined in the specification, TLC derives the BIP340 signature for every secret of both parities, message and aux value, checks that it verifies, and evaluates verification for every x-only key candidate, R and s including non-points, R >= p and s >= n; both tables are replayed through the unmodified sign_schnorr / verify_schnorr / parse code. On secp256k1 recorded signatures are re-derived by TLC (xor, tagged-hash rows, nonce and challenge reductions, s = k + e d) with big-number certificates and every single-bit flip and boundary mutation of sampled signatures is decided in the scalar model.",
+   design="3/C02",
+   note="Trusted: TLC, Sigs.tla/SigCases.tla, hashlib for tagged SHA256 rows, the library's scalar multiplication for points on the real curve (C03), discrete-log assumption for altered R / foreign keys. Keys, messages and aux are sampled on the real curve; toy groups are exhaustive.",
+   technique="TLA+ BIP340 spec: TLC-exhaustive toy-group tables replayed into rebound code + TLC scalar-model validation of recorded secp256k1 calls"),
+ "C03": dict(
+   text="For a family of small curves TLC checks the field axioms, all group axioms (associativity over all triples) and the double-and-add loop as a state machine with its loop invariant, and exports the complete addition, scalar multiplication and lift tables, replayed through FieldElement / Point and through S256Point with toy parameters (incl. negative, zero and > n scalars, every compressed/uncompressed/x-only encoding and every non-point). On secp256k1 every Point.__add__ executed during sampled scalar multiplications is validated by TLC against the affine group-law relations with big-number certificates and the addition sequence against the double-and-add machine; identities and encodings/rejections are decided likewise.",
+   design="3/C03",
+   note="Trusted: TLC, Curve.tla, certificates are checked not trusted. Real-curve law is validated per executed addition for sampled scalars (boundary list + random), not for all pairs.",
+   technique="TLA+ curve spec: TLC model checking + exhaustive small-curve tables replayed into code + TLC certificate validation of recorded secp256k1 additions"),
  "C06": dict(
    text="TLC explores a bounded adversary that assembles spends of every standard output kind item by item (all scriptSig/witness sequences up to a bound over valid, foreign and junk items) against the byte-level reference verifier SpendRef (P2SH/BIP141/BIP143/BIP341/BIP342 with ideal-signature oracles) and checks that only authorised spends are accepted and the honest spend is accepted; the whole explored universe is exported and replayed through Tx.verify_input with real keys, signatures and scripts. In addition every honest spend built with the library's signing helpers and every mutation of the property's catalogue is run through verify_input and decided by TLC (honest => accepted, accepted => authorised).",
    design="3/C06, Appendix A.3",
